@@ -337,7 +337,7 @@ CHECKS['C20'] = {
 
 CHECKS['C14'] = {
     'level': 'fault_enumeration',
-    'jobs': [{'engine': 'faultinj', 'variant': 'san', 'profile': 'default', 'quick': 2400, 'thorough': 4800, 'avg_case_s': 4.0, 'case_timeout': 300, 'kv': {'maxk': 200},
+    'jobs': [{'engine': 'faultinj', 'variant': 'san', 'profile': 'default', 'quick': 2400, 'thorough': 2400, 'avg_case_s': 4.0, 'case_timeout': 300, 'kv': {'maxk': 200},
               'env': {'ASAN_OPTIONS': 'abort_on_error=0:halt_on_error=1:detect_leaks=1:detect_stack_use_after_return=1:strict_string_checks=1:exitcode=66:allocator_may_return_null=1'}}],
     'prefixes': ['C14.'],
     'required_counters': ['inj.alloc', 'alloc.thrown', 'inj.abandon', 'abandon.thrown', 'inj.weight', 'weight.thrown', 'rejects', 'leak_checks', 'table.scenarios', 'table.rejects'],
